@@ -149,7 +149,7 @@ func c14CaseRacing(op c14Op, tm terminator, n int, race bool) fw.Case {
 	bound := c14Bound
 	if race {
 		nm = "producer-racing-subscribe/" + nm
-		bound = c14Bound + 1
+		bound = 2 // both tiers: at 3 one operator alone (a single shard) outlasts the whole budget
 	}
 	return fw.Case{Name: nm, Bound: bound, Opts: vrt.Options{Horizon: 40000, MaxTime: int64(5 * u)}, Make: func() fw.Instance {
 		rec := h.NewRec("out")
